@@ -3,7 +3,7 @@
    LNK: link + packets + polling schedule (gaps) -> the wire image is built by each side with its own
         sender-side encoders, then polled.                                                                   C13, C19
    SND: link + encoded frames + device answers -> what the device recorded, and the result.                 C14 *)
-Require Import RP.Model.Base RP.Model.Packet RP.Model.Cobs RP.Model.Frame RP.Model.Links RP.Lemmas.Builder
+Require Import RP.Model.Base RP.Model.Packet RP.Model.Cobs RP.Model.Frame RP.Model.Links RP.Spec.Frag RP.Lemmas.Builder
   RP.Glue.Wire RP.Glue.StreamFrame RP.Glue.StreamPacket.
 
 Definition lerr_code (e: lerr) : N :=
@@ -155,7 +155,7 @@ Fixpoint weave {T} (wb: T) (gaps: list N) (i: nat) (items: list (list T)) : list
 Definition frames_of_packets (ps: list packet) : out (list (list frame)) berr := mapM to_frames ps.
 Definition wire_usart_frame (f: frame) : out (list N) ferr := do e <- to_usart f; Val (link_bytes e).
 
-(* returns the polls and, for each packet, the number of tokens left when its last token has been consumed *)
+(* returns the polls (the second component is unused) *)
 Definition intr_frame (w: list N) : list stok :=
   match w with
   | d :: l :: b1 :: b2 :: r => SB d :: SINT :: SB l :: SB b1 :: SINT :: SB b2 :: map SB r
@@ -170,21 +170,36 @@ Definition lnk_run (link: N) (gaps: list N) (ps: list packet) (fl: N) : option (
              | Val css =>
                  let per_packet := map (fun cs => map (fun c => [CF c]) cs) css in
                  let toks := weave CWB gaps 0 (concat per_packet) in
-                 (* bounds: frames (and their gaps) remaining after each packet *)
-                 let lens := map (fun cs => length cs) css in
                  Some (run_polls can toks, [])
              | _ => None end
       | 1 => match mapM (fun fs => mapM wire_usart_frame fs) fss with
              | Val wss => let bytes_ := concat (map (fun ws => concat ws) wss) in
-                          Some (run_polls usart (weave UWB gaps 0 (map (fun b => [UB b]) bytes_)), [])
+                          let toks := weave UWB gaps 0 (map (fun b => [UB b]) bytes_) in
+                          Some (run_polls usart toks, [])
              | _ => None end
       | 2 => match mapM (fun fs => mapM wire_usart_frame fs) fss with
              | Val wss => let intr := N.testbit fl 1 in let alt := N.testbit fl 2 in
-                          Some (run_polls serial (weave (if alt then SERR else STO) gaps 0 (map (fun w => if intr then intr_frame w else map SB w) (concat wss))), [])
+                          let toks := weave (if alt then SERR else STO) gaps 0 (map (fun w => if intr then intr_frame w else map SB w) (concat wss)) in
+                          Some (run_polls serial toks, [])
              | _ => None end
       | _ => None
       end
   | _ => None
+  end.
+(* the same script as lnk_run builds, reduced to: per device token, is it a 'no data yet' answer (1) or data (0) *)
+Definition lnk_nodata (link: N) (gaps: list N) (ps: list packet) (fl: N) : list N :=
+  (* the frames are taken from the structural reference fragmenter (C10: equal to to_frames on every packet to_frames accepts; linear time) *)
+  let fss := map frag_spec ps in
+  match link with
+  | 0 => weave 1 gaps 0 (map (fun _ => [0]) (concat fss))
+  | 1 => match mapM (fun fs => mapM wire_usart_frame fs) fss with
+         | Val wss => weave 1 gaps 0 (map (fun _ => [0]) (concat (map (fun ws => concat ws) wss)))
+         | _ => [] end
+  | 2 => match mapM (fun fs => mapM wire_usart_frame fs) fss with
+         | Val wss => let intr := N.testbit fl 1 in
+                      weave 1 gaps 0 (map (fun w => map (fun _ => 0) (if intr then intr_frame w else map SB w)) (concat wss))
+         | _ => [] end
+  | _ => []
   end.
 Definition run_LNK (case: list N) : list N :=
   match lnk_split case with
@@ -192,10 +207,20 @@ Definition run_LNK (case: list N) : list N :=
   | None => BAD
   end.
 
+(* a poll may report 'nothing received' only if the device told it so: among the tokens it consumed there is a 'no data yet' answer,
+   or the script was exhausted (then the device answers 'no data yet' without a token) *)
+Fixpoint none_walk (rest: list N) (left_prev: N) (ps: list (list N * N * N)) : bool :=
+  match ps with
+  | [] => true
+  | (r, lft, _) :: t =>
+      let k := N.to_nat (left_prev - lft) in
+      (negb (res_class r =? 2) || (lft =? 0) || existsb (fun x => x =? 1) (firstn k rest)) && none_walk (skipn k rest) lft t
+  end.
 (* C13: delivered sequence = sent sequence, only 'nothing received' otherwise, one packet per successful poll *)
 Definition c13_eval (case obs: list N) : list N * list N :=
   match lnk_split case, parse_polls obs with
-  | Some (link, gaps, pkts, _), Some (ps, []) =>
+  | Some (link, gaps, pkts, fl), Some (ps, []) =>
+
       let classes := map (fun e => res_class (fst (fst e))) ps in
       let oks := map (fun e => fst (fst e)) (filter (fun e => res_class (fst (fst e)) =? 0) ps) in
       let expect := map (fun p => 0 :: show_packet p) pkts in
@@ -204,7 +229,8 @@ Definition c13_eval (case obs: list N) : list N * list N :=
       let last_none := match rev_append classes [] with c :: _ => c =? 2 | [] => false end in
       (* between successive Pkt results the number of tokens left strictly decreases: each poll returned one packet and left the rest queued *)
       let view := concat (map (fun e => match res_class (fst (fst e)) with 0 => fst (fst e) | c => [c] end) (filter (fun e => negb (res_class (fst (fst e)) =? 2)) ps)) ++ [b2N last_none] in
-      (view, if negb clean then [130] else if negb same then [131] else if negb last_none then [132] else [])
+      (view, if negb clean then [130] else if negb same then [131] else if negb last_none then [132]
+             else let nodata := lnk_nodata link gaps pkts fl in if none_walk nodata (nlen nodata) ps then [] else [134])
   | Some _, _ => ([3], match obs with [3] => [133] | _ => [3054] end)
   | _, _ => ([3054], [3054])
   end.
